@@ -119,6 +119,11 @@ def rich_nexus_docs(draw, max_taxa=5, max_trees=3, max_blocks=3, max_chars=6, re
                                                     title, None))
             out += text
             matrices.append(m)
+            if draw(st.booleans()):
+                # SETS block (CHARSET = all / ranges / 'a-.' / strides) in front of the TREES blocks that follow: only
+                # the routes that read character data parse it
+                out += draw(docs._nexus_sets_block(m, draw(st.booleans()), title))
+                feats["sets"] = True
             continue
         taxa = list(range(ntax))
         out += "BEGIN TREES;\n"
@@ -228,7 +233,7 @@ def features_of(doc):
             body = body.replace(tok, "")
         blocks = len(set(t["block"] for t in doc["content"]["trees"])) if doc.get("content") else 1
         f = {"translate": "TRANSLATE" in text.upper(), "comment": "[" in body, "weight": "[&W" in text.upper(),
-             "blocks": blocks, "recased": False}
+             "blocks": blocks, "recased": False, "sets": "CHARSET" in text.upper()}
     return f
 
 
